@@ -278,6 +278,42 @@ func cmdCheck(args []string) {
 		fmt.Printf("failed obligation %s (%s by %s) at %s\n", ob.Name, ob.Status, ob.Solver, ob.Where)
 		fmt.Printf("VIOLATION property=%s replay=%s%s\n", *prop, rp, suffix)
 	}
+	// bounded stand-ins registered for this property (labelled bounded, never counted as proved)
+	standins = nil
+	for _, sd := range loadStandins(vd) {
+		if sd.Property != *prop {
+			continue
+		}
+		fails, cmdline, out := runDriver(*repo, vd, Driver{Pkg: sd.Pkg, File: sd.File, Test: sd.Test}, dir)
+		cases := 0
+		for _, ln := range strings.Split(out, "\n") {
+			if i := strings.Index(ln, "REPLAY-CASES "); i >= 0 {
+				cases, _ = strconv.Atoi(strings.TrimSpace(ln[i+len("REPLAY-CASES "):]))
+			}
+		}
+		rec := map[string]interface{}{"name": sd.Name, "bound": sd.Bound, "cases": cases, "failing": len(fails), "reason_not_deductive": sd.Reason, "cmd": cmdline}
+		standins = append(standins, rec)
+		if len(fails) > 0 || cases == 0 {
+			content := map[string]interface{}{"property": *prop, "obligation": "bounded:" + sd.Name, "evidence": "search", "failing_inputs": fails, "driver_cmd": cmdline}
+			if cases == 0 && len(fails) == 0 {
+				content["evidence"] = "none"
+				tail := out
+				if len(tail) > 1500 {
+					tail = tail[len(tail)-1500:]
+				}
+				content["driver_output_tail"] = tail
+			}
+			rp := writeReplay(vd, *prop, "bounded_"+sd.Test, content)
+			suffix := ""
+			if len(fails) == 0 {
+				suffix = " no-failing-input-found"
+			}
+			fmt.Printf("bounded stand-in %q failed\n", sd.Name)
+			fmt.Printf("VIOLATION property=%s replay=%s%s\n", *prop, rp, suffix)
+			violations++
+			exit = 1
+		}
+	}
 	// thorough tier: the must-fail corpus of this property (own mutants and the stored seeded
 	// changes) is run through the same obligations; an entry that is not reported means the
 	// check lost its teeth: the check is broken (exit 2), not a violation
@@ -361,7 +397,7 @@ func runDriver(repo, vd string, d Driver, scratch string) (fails []string, cmdli
 	ovf := filepath.Join(scratch, "ov_"+unsafeName.ReplaceAllString(d.Test, "_")+".json")
 	data, _ := json.Marshal(ov)
 	os.WriteFile(ovf, data, 0o644)
-	args := []string{"test", "-tags", "verif", "-overlay", ovf, "-vet=off", "-count=1", "-timeout", "120s", "-run", "^" + d.Test + "$", "./" + d.Pkg}
+	args := []string{"test", "-v", "-tags", "verif", "-overlay", ovf, "-vet=off", "-count=1", "-timeout", "120s", "-run", "^" + d.Test + "$", "./" + d.Pkg}
 	cmd := exec.Command("go", args...)
 	cmd.Dir = repo
 	cmd.Env = append(os.Environ(), "GOFLAGS=-mod=mod", "GOPROXY=off", "GOSUMDB=off", "GOTOOLCHAIN=local")
@@ -437,6 +473,28 @@ func tryDrivers(vd, repo, obName string, drivers []Driver, scratch string, conte
 // ---------------------------------------------------------------------------
 
 var mustFail map[string]interface{}
+var standins []map[string]interface{}
+
+// Standin is a bounded check registered in /verif/replay/standins.json.
+type Standin struct {
+	Property string `json:"property"`
+	Name     string `json:"name"`
+	Pkg      string `json:"pkg"`
+	File     string `json:"file"`
+	Test     string `json:"test"`
+	Bound    string `json:"bound"`
+	Reason   string `json:"reason"`
+}
+
+func loadStandins(vd string) []Standin {
+	data, err := os.ReadFile(filepath.Join(vd, "replay", "standins.json"))
+	if err != nil {
+		return nil
+	}
+	var out []Standin
+	json.Unmarshal(data, &out)
+	return out
+}
 
 func writeEvidence(c *Ctx, vd, prop, tier string, seed int, res []*procResult, obls, probes, failed []*Obligation, knownMatched []string, unclaimed, violations int, wall float64, timeoutMs int) {
 	isKnown := map[string]bool{}
@@ -556,7 +614,7 @@ func writeEvidence(c *Ctx, vd, prop, tier string, seed int, res []*procResult, o
 		"known_findings_matched":   kfs,
 		"must_fail_corpus":         mustFail,
 		"callee_contracts_relied_on": callee,
-		"bounded_standins":         []string{},
+		"bounded_standins":         standinsOrEmpty(),
 		"explanation":              "every obligation is generated from the typed AST of /repo's working tree on this run; contracts are the //@ blocks of the verif-tagged files",
 	}
 	ev := map[string]interface{}{
@@ -589,4 +647,11 @@ func clip(s string, n int) string {
 		return s[:n] + "..."
 	}
 	return s
+}
+
+func standinsOrEmpty() []map[string]interface{} {
+	if standins == nil {
+		return []map[string]interface{}{}
+	}
+	return standins
 }
